@@ -681,9 +681,13 @@ fn check_faults(
     if s.faults.is_empty() {
         return (g, None);
     }
+    // Occurrences of a site are counted at its scheduling-point call; a `fault_err` call for the
+    // same site (which always follows the `phase` call) sees the same count.
     let count = {
         let c = s.site_counts.entry(site).or_insert(0);
-        *c += 1;
+        if !allow_err || *c == 0 {
+            *c += 1;
+        }
         *c
     };
     let mut hit = None;
@@ -692,6 +696,12 @@ fn check_faults(
             continue;
         }
         if matches!(f.kind, FaultKind::Err) && !allow_err {
+            continue;
+        }
+        // An unwinding panic may only be injected where wild's own code could panic, never from
+        // inside the rayon model's internals (real rayon doesn't panic in spawn/join/wait, and
+        // unwinding out of them would free stack data that pending tasks still borrow).
+        if matches!(f.kind, FaultKind::Panic) && is_internal_site(site) {
             continue;
         }
         let m = match &f.trigger {
@@ -707,6 +717,13 @@ fn check_faults(
         Some(i) => fire_fault(g, me, i, site),
         None => (g, None),
     }
+}
+
+fn is_internal_site(site: &str) -> bool {
+    matches!(
+        site,
+        "spawn" | "wait" | "wait_done" | "task_end" | "idle" | "mutex_wait" | "bridge_pull" | "par_sort"
+    )
 }
 
 fn sched_locked(
